@@ -667,7 +667,7 @@ pub fn gen_c04(rng: &mut Rng, thorough: bool, emit: &mut dyn FnMut(ServeCase)) {
 
 /// C05: If-Range against every kind of validator.
 pub fn gen_c05(rng: &mut Rng, thorough: bool, emit: &mut dyn FnMut(ServeCase)) {
-    let ranges: Vec<&str> = vec!["bytes=1-3", "bytes=0-1, 5-6", "bytes=500-", "bytes=abc", "bytes=-5", "bytes=0-1,3-4,9-9"];
+    let ranges: Vec<&str> = vec!["bytes=1-3", "bytes=0-1, 5-6", "bytes=500-", "bytes=abc", "bytes=-5", "bytes=0-1,3-4,9-9", "bytes=0-100, 120-239"];
     for etag in etag_variants() {
         for mtime in mtime_variants() {
             let lm_s = mtime.map(|m| m / 1_000_000_000).unwrap_or(T0);
@@ -1073,5 +1073,43 @@ pub fn gen_chunkings(rng: &mut Rng, thorough: bool, emit: &mut dyn FnMut(ServeCa
         e.default_recipe = exact_recipe(rng, len, style);
         let hdr = if l == a + len && rng.chance(1, 2) { format!("bytes={}-", a) } else { format!("bytes={}-{}", a, a + len - 1) };
         emit(case(e, "GET", vec![("range".to_string(), hdr.clone().into_bytes())], format!("X:chunking-random L={} {} style={}", l, hdr, style)));
+    }
+}
+
+/// The corner where the true multipart length reaches 2^64 although the 80-byte estimate is below
+/// the entity length: astronomically large entity, one near-total range plus tiny ones, entity
+/// headers of every length (they decide whether the part header pushes the sum over the limit).
+/// Both sides of the boundary: 413 just above, multipart 206 just below.
+pub fn gen_overflow_corner(rng: &mut Rng, thorough: bool, emit: &mut dyn FnMut(ServeCase)) {
+    let l = U64MAX;
+    let deltas: Vec<u64> = if thorough { (0..400).collect() } else { vec![0, 1, 2, 40, 56, 57, 58, 80, 90, 94, 95, 100, 140, 160, 161, 162, 163, 164, 200, 250, 300, 390] };
+    for hs in ehdr_sets() {
+        for tail in ["0-0", "5-5,7-7", "-1"] {
+            let ntail = tail.matches(',').count() as u64 + 1;
+            for &d in &deltas {
+                // the estimate is (ntail + 1) * 80 + lens; keep it just below L and move the big range's end
+                let big_end = l - 1 - 80 * (ntail + 1) - ntail - d;
+                for with_if_range in [false, true] {
+                    if !thorough && with_if_range && !rng.chance(1, 3) {
+                        continue;
+                    }
+                    let etag = Some(Tag { weak: false, opaque: b"abc".to_vec() });
+                    let mut h = vec![("range".to_string(), format!("bytes=0-{},{}", big_end, tail).into_bytes())];
+                    if with_if_range {
+                        h.push(("if-range".into(), etag.as_ref().unwrap().render()));
+                    }
+                    for m in ["GET", "HEAD"] {
+                        if m == "HEAD" && !rng.chance(1, 3) {
+                            continue;
+                        }
+                        let mut e = ent_with(l, &etag, None, hs.clone());
+                        e.default_recipe = vec![Op::Chunk(3), Op::Err(9)];
+                        let hs_len: usize = hs.iter().map(|(a, b)| a.len() + b.len() + 4).sum();
+                        let c = case(e, m, h.clone(), format!("G:overflow-corner ehdr_bytes={} tail={} delta={} if-range={} {}", hs_len, tail, d, with_if_range, m));
+                        emit(finish_case(c, &etag, vec![]));
+                    }
+                }
+            }
+        }
     }
 }
